@@ -22,6 +22,7 @@ func Run(c *hx.Ctx) {
 	e.exhaustive()
 	e.random()
 	e.fillCycles()
+	e.growAfterFree()
 	e.rootExhaustion()
 	e.liveHandles()
 	if prop != "C08" {
@@ -468,6 +469,80 @@ func (e *eng) fillCycles() {
 		h.closeAll()
 		c.Distinct(fmt.Sprintf("fill|%s|%d", cfg, first))
 		c.Sample(fmt.Sprintf("fill/empty/refill on %s: %d files of %d bytes fit; %d steps", cfg, first, fileSize, h.nsteps))
+	}
+}
+
+// growAfterFree: space released in FRONT of a file's chain must be usable for that file's own growth
+// (and for a directory's growth): A at the front, B grown until the volume is full, A removed, B grown again.
+func (e *eng) growAfterFree() {
+	c := e.c
+	cfgs := []volCfg{
+		{Kind: 12, Size: 100 * kib, Start: 0, Slack: 0},
+		{Kind: 32, Size: 128 * kib, Start: 512, BS: 512, Slack: 0},
+	}
+	if c.Thorough() {
+		cfgs = append(cfgs, volCfg{Kind: 16, Size: 5 * mib, Start: 1 * mib, Slack: 0}, volCfg{Kind: 12, Size: 300 * kib, Start: 4*gib + 4096, Slack: 0})
+	}
+	for ci, cfg := range cfgs {
+		for variant := 0; variant < 2; variant++ {
+			id := fmt.Sprintf("g%d.%d", ci, variant)
+			if !c.Want(id) {
+				continue
+			}
+			v, err := mkVol(cfg)
+			if err != nil {
+				c.Fail(id, "-", "Create failed: "+err.Error(), cfg.String())
+				continue
+			}
+			h := newHist(c, e.prop, id, v)
+			h.fullCompare = false
+			bpc := v.prevBPC()
+			aSize := 30*bpc + 3 // well above the oracle's generous estimate of what the later growth needs
+			ok := h.step(&op{Kind: "write", Path: "A.BIN", Off: 0, Data: pattern(c.Rng, aSize), Create: true})
+			target := "B.BIN"
+			if variant == 1 {
+				// the growing chain is a directory's: many long-named entries in a subdirectory
+				ok = ok && h.step(&op{Kind: "mkdir", Path: "grow"})
+				target = "grow/B.BIN"
+			}
+			ok = ok && h.step(&op{Kind: "write", Path: target, Off: 0, Data: pattern(c.Rng, bpc), Create: true})
+			// grow B until the volume refuses
+			chunk := 4 * bpc
+			if cfg.Kind == 16 {
+				chunk = 400 * bpc
+			}
+			for k := 0; ok && k < 100000; k++ {
+				before := len(h.ref.lookup(target).data)
+				if !h.step(&op{Kind: "append", Path: target, Data: pattern(c.Rng, chunk)}) {
+					ok = false
+					break
+				}
+				if n := h.ref.lookup(target); n == nil || len(n.data) == before {
+					if chunk > bpc {
+						chunk = bpc // top up cluster by cluster until really full
+						continue
+					}
+					break
+				}
+			}
+			h.fullCompare = true // from here on every step is followed by a raw scan: refusals are judged against it
+			ok = ok && h.step(&op{Kind: "remove", Path: "A.BIN"})
+			// now A's clusters are free and lie before B's chain end: B must be able to use them
+			if ok {
+				if variant == 0 {
+					ok = h.step(&op{Kind: "append", Path: target, Data: pattern(c.Rng, 5*bpc)})
+				} else {
+					for k := 0; ok && k < 3*bpc/64; k++ {
+						ok = h.step(&op{Kind: "create", Path: fmt.Sprintf("grow/a-long-name-so-that-the-directory-has-to-grow-%03d.txt", k)})
+					}
+				}
+			}
+			h.fullCompare = true
+			h.step(&op{Kind: "check"})
+			h.closeAll()
+			c.Stat("grow-after-free")
+			c.Distinct(fmt.Sprintf("growfree|%s|%d", cfg, variant))
+		}
 	}
 }
 
